@@ -176,7 +176,16 @@ def step(chk, kind, arr, n, r):
             key = idx if how == "list" else (np.array(idx, dtype=np.int64) if how == "ndarray" else pd.array(idx, dtype="Int64"))
             res = arr[key] if len(idx) or how != "list" else arr[[]]
             return res, [i % n if n else i for i in idx] if n else [], f"arr[{how}{idx}]"
-        res = arr.take(idx, allow_fill=fill)
+        # the index as a list or as an integer ndarray of any width that holds its values; the caller's index object is only read
+        how = r.choice(("list", "int64", "int32", "int16", "int8"))
+        if how == "list" or not idx or max(abs(i) for i in idx) > 120:
+            key, how = idx, "list"
+        else:
+            key = np.array(idx, dtype=how)
+        before = list(key)
+        res = arr.take(key, allow_fill=fill)
+        if [int(x) for x in key] != [int(x) for x in before]:
+            chk.violation(f"select/{kind}/take-modifies-the-callers-index", dict(api="take", kind=kind, index=before, after=[int(x) for x in key], index_type=how, allow_fill=fill))
         exp = untok(drive([f"take {n} {int(fill)} {tok(idx)}"])[0])
         return res, (exp if isinstance(exp, list) else []), f"take({idx}, allow_fill={fill})"
     if op == "concat":
@@ -378,8 +387,31 @@ def run_sequence(chk, kind, st, els, r, length):
     chk.sample(dict(kind=kind, subtype=st, elements=els[:3], history=hist), cap=8)
 
 
+def narrow_index_dtypes(chk, r):
+    """valid positions given as an integer ndarray of a narrow type on an array longer than that type can count"""
+    for kind in ("point", "line"):
+        n = 200
+        els = [[i, -i] if kind == "point" else [i, 0, i + 1, 1] for i in range(n)]
+        arr = geo.make_array(kind, els, "float64")
+        for dt, idx in (("int8", [-1, -128, 100, 0]), ("uint8", [199, 0, 128]), ("int16", [-200, 199, -1]), ("int64", [-1, -200])):
+            key = np.array(idx, dtype=dt)
+            want = [canon_el(els[i]) for i in idx]
+            for how, f in (("take", lambda: arr.take(key)), ("getitem", lambda: arr[key])):
+                try:
+                    got = canon_el(geo.to_elements(f()))
+                except Exception as e:  # noqa: BLE001
+                    chk.violation(f"select/{kind}/valid-{dt}-index-raises-{common.err_kind(e)}", dict(api=how, kind=kind, length=n, index=idx, index_dtype=dt, error=repr(e)[:200])); continue
+                if got != want:
+                    chk.violation(f"select/{kind}/{dt}-index-elements-differ", dict(api=how, kind=kind, length=n, index=idx, index_dtype=dt, got=got, expected=want))
+                if [int(x) for x in key] != idx:
+                    chk.violation(f"select/{kind}/take-modifies-the-callers-index", dict(api=how, kind=kind, index=idx, after=[int(x) for x in key], index_type=dt, allow_fill=False))
+                chk.evaluated()
+    chk.count("narrow-index-dtypes")
+
+
 def run_cases(chk, tier):
     r = common.rng(PROP)
+    narrow_index_dtypes(chk, r)
     seqs = 14 if tier == "quick" else 150
     for kind in geo.KINDS:
         for k in range(seqs):
